@@ -170,22 +170,10 @@ def run(ctx):
         raise AnalysisError("thermostatted step functions not found")
 
     # R4
-    sd = md.func("Molecular_Dynamics_Langevin.set_dof")
-    asg = [st for st in ast.walk(sd) if isinstance(st, ast.Assign) and norm(st.targets[0]) == "self.n_dof"]
-    ok = len(asg) == 1 and "constraints" not in names_in(asg[0].value) and norm(asg[0].value).replace(" ", "") in ("3.0*molecule.num_atoms", "3*molecule.num_atoms")
-    ctx.check(ok, "R4", md, sd, "Molecular_Dynamics_Langevin.set_dof", asg[0] if asg else sd.name, "Langevin n_dof = 3N (thermostat feeds all 3N modes)",
-              f"Langevin n_dof is `{norm(asg[0].value) if asg else '?'}`")
-    xs = md.func("XL_BOMD.set_dof")
-    asg = [st for st in ast.walk(xs) if isinstance(st, ast.Assign) and norm(st.targets[0]) == "self.n_dof"]
-    zero = [st for st in ast.walk(xs) if isinstance(st, ast.Assign) and norm(st.targets[0]) == "constraints" and norm(st.value) in ("0.0", "0")]
-    z_ok = bool(zero) and any(p and norm(a).replace(" ", "") == "self.dampisnotNone" for a, p, _ in controlling(md, zero[0]))
-    f_ok = len(asg) == 1 and norm(asg[0].value).replace(" ", "") in ("3.0*molecule.num_atoms-constraints", "3*molecule.num_atoms-constraints")
-    ctx.check(z_ok and f_ok, "R4", md, xs, "XL_BOMD.set_dof", xs.name, "XL-BOMD n_dof = 3N - constraints, constraints dropped iff damped",
-              "XL_BOMD.set_dof does not drop the COM constraints exactly when a damping time is set")
-    bs = md.func("Molecular_Dynamics_Basic.set_dof")
-    asg = [st for st in ast.walk(bs) if isinstance(st, ast.Assign) and norm(st.targets[0]) == "self.n_dof"]
-    ctx.check(len(asg) == 1 and norm(asg[0].value).replace(" ", "") in ("3.0*molecule.num_atoms-constraints", "3*molecule.num_atoms-constraints"),
-              "R4", md, bs, "Molecular_Dynamics_Basic.set_dof", bs.name, "NVE n_dof = 3N - constraints", "base set_dof formula changed")
+    from ..assembly import com_setup_verdicts
+    cv = com_setup_verdicts(repo)
+    ctx.check(cv["dof"][0], "R4", md, md.func("XL_BOMD.set_dof"), "set_dof", "n_dof of the three engines", cv["dof"][1], cv["dof"][1])
+    ctx.check(cv["mode"][0], "R4", md, md.func("Molecular_Dynamics_Basic.initialize"), "Molecular_Dynamics_Basic.initialize", "constraints", cv["mode"][1], cv["mode"][1])
     bi = md.func("Molecular_Dynamics_Basic.initialize")
     g = build_cfg(bi)
     sdn = {n.id for n in g.nodes if n.kind == "stmt" and any(callee_attr(c) == "set_dof" for c in calls_in(n.stmt))}
@@ -195,12 +183,3 @@ def run(ctx):
     for n in ivn:
         ctx.check(g.must_pass(g.entry, n, sdn), "R4", md, g.nodes[n].stmt, "Molecular_Dynamics_Basic.initialize", g.nodes[n].stmt,
                   "set_dof precedes the velocity draw on every path", "initialize_velocity can run before set_dof")
-    for n in sdn:
-        c = [c for c in calls_in(g.nodes[n].stmt) if callee_attr(c) == "set_dof"][0]
-        ctx.check([norm(a) for a in c.args] == ["molecule", "constraints"], "R4", md, c, "Molecular_Dynamics_Basic.initialize", c,
-                  "set_dof receives the constraint count of the COM mode", f"set_dof called with {[norm(a) for a in c.args]}")
-    # constraints 3 / 6
-    cons = [st for st in ast.walk(bi) if isinstance(st, ast.Assign) and norm(st.targets[0]) == "constraints"]
-    txt = [norm(st.value).replace(" ", "") for st in cons]
-    ctx.check("0.0" in txt and any(t in ("6.0ifself.remove_com_angularelse3.0",) for t in txt), "R4", md, bi, "Molecular_Dynamics_Basic.initialize", "constraints",
-              "constraints are 0 (no COM removal), 3 (linear) or 6 (angular)", f"constraint counts are {txt}")
